@@ -53,6 +53,13 @@ ASSUMPTIONS = [
     'header sniffing (`may_contain_header`) is an external input of the model (`sniffOK`), computed by the real '
     'code for the header each writable class writes',
     'AFNIImage.filespec_to_file_map (depends on which files exist; class is read-only) is not modelled',
+    'histories: the model threads ONLY the file system (name -> writer class, codec on disk) through a history; that '
+    'the code keeps no other process-wide state is what the hist streams test (every history in a fresh forked '
+    'interpreter, every step compared with the stateless model); side files of plain Opener steps live in a '
+    'directory no save/load step names',
+    'write programs: BytesIO / plain-file / GzipFile / BZ2File / ZstdFile seek+write behaviour is modelled by two '
+    'small machines (random access, sequential zero-filling) and compared with the real objects on every wprog case; '
+    'that each class\'s to_file_map is a forward-only program is observed (recorded calls), not proved',
     'names whose last path component before the extension is empty or only dots (".mgz", "..nii") are '
     'compared model-vs-code but are outside the oracle (os.path.splitext sees no extension there)',
 ]
@@ -64,7 +71,16 @@ RULE = ('streams: fm = every modelled class x member (+ .mgz) x EVERY case mix o
         'match_case on/off); save = real nib.save on a temp directory for all 10 writable classes (str and '
         'pathlib.Path; NIfTI-1/2 single+pair, Analyze and SPM images built with BOTH header byte orders), observing the directory listing, per-file codec magic, generic load of the name and of every '
         'written file, to_bytes/to_stream/from_bytes/from_stream; save-cross = saving under another class\'s name; '
-        'a case is distinct by (op, class, name[, flags]); every case is non-trivial (has a real name).')
+        'hist-order / hist = HISTORIES OVER ONE PROCESS, each run in a fresh interpreter state (forked child of a worker '
+        'that only imported nibabel): base Opener / ImageOpener used on unrelated, compressed and mixed-case names '
+        '(.txt .trk .GZ .Bz2 .MGZ .Mgz ...) in every ORDER before/between nib.save of all 10 writable classes under '
+        'lower/UPPER/Mixed extension x suffix spellings (str and pathlib), nib.load of the name, of every written '
+        'member (.img.zst, .hdr.bz2 ...), of case-changing renames of all members, after losing a member, and after '
+        'ANOTHER class overwrote the same name; observable per step: codec on disk, files written, class loaded; '
+        'wprog-class = the write/seek calls each serialisable class really makes (recorded, both header byte orders) '
+        'replayed on BytesIO, plain file, gzip, bz2, zstd through ImageOpener + seek_tell; wprog = random and hand-made '
+        'write programs (forward gaps, empty writes, backward and dangling seeks) on the same five holder kinds; '
+        'a case is distinct by (op, class, name[, flags]) / by its step list; every case is non-trivial (has a real name).')
 PENDING_FINDINGS = []
 
 FAKE_ROOT = '/T'          # the model sees FAKE_ROOT/<rel>, the implementation <tmpdir>/<rel>
@@ -188,7 +204,8 @@ def regen():
           'def tfDefault : List Str := ' + _lean_list([_lean_str(e) for e in t['tf_default']]), '',
           'end Nb.C12.Gen', '']
     common.write_if_changed(os.path.join(common.LEAN, 'NibabelModel', 'Generated', 'C12FileTypes.lean'), '\n'.join(L))
-    return ['Generated.C12FileTypes.classTable', 'Generated.C12FileTypes.openerKeys']
+    return ['Generated.C12FileTypes.classTable', 'Generated.C12FileTypes.openerKeys',
+            'Generated.C12FileTypes.baseOpenerKeys']
 
 
 # --------------------------------------------------------------------------- images and observables
